@@ -11,7 +11,7 @@ from vmon.util import Mon
 from vmon.ref import torus as T
 
 ID = 'C06'
-RULE = ('named crystal pool (Bravais/multi-site, 2-D/3-D, one or several Wyckoff sets, with/without origin states) x Nthermo in '
+RULE = ('named crystal pool (Bravais/multi-site, 2-D/3-D, one or several Wyckoff sets, with/without origin states, compounds with spectator species) x Nthermo in '
         '{1,2} x random vacancy prefactors [0.5,2] and energies N(0,sigma) per Wyckoff set and omega0 class, kT in [0.5,2]; '
         'non-trivial = rates not all equal or more than one site; distinct = (crystal, Nthermo, input index)')
 ASSUMPTIONS = ['real Green function: tolerance 1e-5 x |L0vv| (the property qualifies these identities by integration accuracy; '
@@ -19,11 +19,11 @@ ASSUMPTIONS = ['real Green function: tolerance 1e-5 x |L0vv| (the property quali
                'seen on the 2-D displaced triangular lattice with anisotropic rates (1e-4)', 'torus Green function: 1e-9 x |L0vv| x max(1, rate spread / 100) (rounding of the linear solves grows with the condition number: 1.8e-8 observed at a spread of 7e4 on double hcp; 1e-4 for L1vv on crystals with origin states, see C01)',
                'matrix inequalities with margin 1e-6 x |L0vv|; a violation at the default k-point density is decided by the same mesh-convergence rule (2-D displaced triangular lattice, Nthermo=2, rate ratio 900: lambda_min(Lss)/|L0vv| = -0.46 (NGFmax 4), -0.07 (8), +0.02 (12))']
 REQUIRED_OBS = {'eval:C06:real:Lsv=-L0vv': 20, 'eval:C06:real:L1vv=0': 20, 'eval:C06:stub:Lsv=-L0vv': 20,
-                'eval:C06:0<=Lss<=L0vv': 20, 'multi_wyckoff': 3, 'dim2': 3}
+                'eval:C06:0<=Lss<=L0vv': 20, 'multi_wyckoff': 3, 'dim2': 3, 'origin_states_with_spectators': 4}
 CASE_TIMEOUT = 900
 QUICK = [('fcc', 1), ('bcc', 1), ('hcp', 1), ('square', 1), ('honey', 1), ('omega', 1), ('diamond', 1), ('tria', 1),
          ('lieb', 1), ('dtria', 1), ('rumpled', 1), ('b2', 1), ('fcc', 2), ('honey', 2), ('sc', 1), ('kagome', 1),
-         ('tric', 1), ('p4m', 1), ('p2', 1), ('mono2', 1), ('dhcp', 1), ('omega_perm', 1)]
+         ('tric', 1), ('p4m', 1), ('p2', 1), ('mono2', 1), ('dhcp', 1), ('omega_perm', 1), ('rumpled_spec', 1), ('dtria_spec', 1)]
 THOROUGH = QUICK + [('l12', 1), ('tet', 1), ('rect', 1), ('bcc', 2), ('sc', 2), ('hcp', 2), ('tria', 2), ('dtria', 2),
                     ('square', 2), ('lieb', 2), ('diamond', 2)]
 
@@ -60,6 +60,7 @@ def run_case(case):
         if sample is None: sample = desc
         mon.sig([name, nth, k])
         for t in ('multi_wyckoff', 'dim2', 'origin_states'): mon.count(t, t in tags)
+        mon.count('origin_states_with_spectators', 'origin_states' in tags and diff.crys.N != diff.N)
         try:
             diff.GFcalc = real
             diff.clearcache()
@@ -93,8 +94,10 @@ def run_case(case):
             mon.check(ok, 'C06:real:identities-converge', lambda: 'tracer identity error %.3e (NGFmax=4) -> %s (8, 12) %s' % (m4, ms, desc), tags)
         mon.close(Lr[2], -Lr[0], max(1e-5, 1.0001 * m4), 'C06:real:Lsv=-L0vv', dt, tags, scale=sc)
         mon.close(Lr[3], 0 * Lr[3], max(1e-5, 1.0001 * m4), 'C06:real:L1vv=0', dt, tags, scale=sc)
-        mon.close(Ls[2], -Ls[0], 1e-9 * max(1., spread / 100.), 'C06:stub:Lsv=-L0vv', dt, tags, scale=sc)
-        mon.close(Ls[3], 0 * Ls[3], 1e-9 * tor.M if 'origin_states' not in tags else 1e-4, 'C06:stub:L1vv=0', dt, tags, scale=sc)
+        stub_ok = not (len(diff.OSindices) >= 2 and len(diff.sitelist) >= 2)   # see C01: the torus stand-in is not usable there
+        mon.count('stub_not_applicable', not stub_ok)
+        if stub_ok: mon.close(Ls[2], -Ls[0], 1e-9 * max(1., spread / 100.), 'C06:stub:Lsv=-L0vv', dt, tags, scale=sc)
+        if stub_ok: mon.close(Ls[3], 0 * Ls[3], 1e-9 * tor.M if 'origin_states' not in tags else 1e-4, 'C06:stub:L1vv=0', dt, tags, scale=sc)
         lo = np.linalg.eigvalsh(0.5 * (Lr[1] + Lr[1].T)).min()
         hi = np.linalg.eigvalsh(0.5 * ((Lr[0] - Lr[1]) + (Lr[0] - Lr[1]).T)).min()
         mon.note_min('margin_Lss', lo / sc)
@@ -113,6 +116,6 @@ def run_case(case):
                   lambda: 'lambda_min(Lss)=%.3e lambda_min(L0vv-Lss)=%.3e %s' % (lo, hi, desc), tags)
         # exact chain value of the tracer correlation
         L0c, Lssc, Lsvc, L1c = tor.predict(args)
-        mon.close(Ls[1], Lssc, 1e-9 * max(1., spread / 100.), 'C06:stub:Lss=chain', dt, tags, scale=sc)
+        if stub_ok: mon.close(Ls[1], Lssc, 1e-9 * max(1., spread / 100.), 'C06:stub:Lss=chain', dt, tags, scale=sc)
         mon.close(Lsvc, -L0c, 1e-9, 'C06:chain-selfcheck', dt, [], scale=sc)
     return mon.result(sample=sample)
